@@ -189,6 +189,10 @@ def one_case(binary, work, cfg, registry, ops, mode, save_every, name="case"):
     S.emit_twin(sc, [tuple(o) for o in ops], mode, 0, save_every=save_every, check_every=1)
     rc, res, orc, err = run_script(binary, sc, work, name + ".txt")
     f = failures(sc, res, orc)
+    if rc != 0 and 0 not in f:
+        # the process died (signal) while executing this history: position of the last answered step
+        pos = max([tag[2] for i, tag in sc.meta.items() if i in res and tag[1] in ("pair", "check")] or [0])
+        f[0] = (pos + 1, "harness-or-library-crashed rc=%d (after step %d)" % (rc, pos))
     return f.get(0), err
 
 
@@ -298,8 +302,10 @@ def run(ctx):
 
     quick = ctx.tier == "quick"
     # (mode, save_every, histories, steps)
-    plan = [("fin", 1, 4, 110), ("loaded", 1, 4, 110), ("loaded", 3, 3, 110), ("fin", 4, 2, 110)] if quick else \
-           [("fin", 1, 40, 160), ("loaded", 1, 40, 160), ("loaded", 3, 30, 160), ("fin", 4, 20, 160), ("loaded", 7, 20, 200)]
+    # save_every 16 > alt_preserve: finalization then jumps by more than the preserved window in one call
+    plan = [("fin", 1, 4, 110), ("loaded", 1, 4, 110), ("loaded", 3, 3, 110), ("fin", 4, 2, 110), ("fin", 16, 2, 110)] if quick else \
+           [("fin", 1, 40, 160), ("loaded", 1, 40, 160), ("loaded", 3, 30, 160), ("fin", 4, 20, 160), ("loaded", 7, 20, 200),
+            ("fin", 16, 20, 200), ("loaded", 17, 10, 200)]
     evaluations = 0
     hno = 0
     found = False
@@ -312,12 +318,23 @@ def run(ctx):
             stats["steps"] += len(ops)
         sc = build_script(hs_, mode, save_every, corr_every=(2 if mode == "fin" else 0))
         rc, res, orc, err = run_script(binary, sc, ctx.work, "twin_%s_%d.txt" % (mode, save_every))
+        crashed_h = None
         if rc != 0:
-            ctx.broken.append("runner: h_store rc=%d %s" % (rc, err[-300:]))
-        mism = S.check_registries(sc, res)
+            # the harness process died (signal): the history that was executing is re-run on its own below
+            for i, tag in sc.meta.items():
+                if i in res:
+                    crashed_h = tag[0]
+        mism = [] if rc != 0 else S.check_registries(sc, res)
         if mism:
             ctx.broken.append("generator/registry out of step: %s" % (mism[:2],))
         fails = failures(sc, res, orc, stats)
+        if crashed_h is not None:
+            g_, ops_ = dict(hs_)[crashed_h]
+            f1, err1 = one_case(binary, ctx.work, CFG, list(g_.lines), ops_, mode, save_every, "crash")
+            if f1:
+                fails[crashed_h] = f1
+            else:
+                ctx.broken.append("runner: h_store rc=%d %s" % (rc, err[-300:]))
         if okm and mode == "fin":
             # model/implementation disagreement on finalizeBlocks: the model is not the specification, so look for a
             # concrete failing input first (the twin oracle of the same history), otherwise name the correspondence
